@@ -136,7 +136,11 @@ package tars
 //@   modifies msgID
 //@   ensures [C08] result != 0
 //@   ensures [C08] result == msgID
-//@   loop 0 invariant true
+// the counter walks through the int32 values: apart from the wrap (at maxInt32 back to 2, and past 0) the id drawn is
+// the previous one plus one, so no id comes back before the whole cycle has been issued
+//@   ensures [C08] (old(msgID) != 2147483647 && old(msgID) != 0 - 1) ==> result == old(msgID) + 1
+//@   ensures [C08] old(msgID) == 2147483647 ==> result == 2
+//@   loop 0 invariant msgID == (old(msgID) == 2147483647 ? 1 : old(msgID)) || (msgID == 0 && old(msgID) == 0 - 1)
 //@   loop 0 decreases (msgID == 0 - 1 ? 1 : 0)
 //@   safety [C08]
 //
@@ -216,6 +220,10 @@ package tars
 //@   modifies s.queueLen, adp.resp.dom
 //@   ensures [C09] s.queueLen == s32(old(s.queueLen) - 1)
 //@   ensures [C09] adp.resp.dom == store(old(adp.resp.dom), ifaceof(msg.Req.IRequestId, "int32"), false)
+// the counter is shared by concurrent callers: it is given back by the atomic add, not by a plain decrement (the
+// sequential model cannot tell the two apart, the call-site clause can)
+//@   site AddInt32#0 assert [C09] $0 == addr(s.queueLen) && $1 == 0 - 1
+//@   sites AddInt32 = 1
 //
 //@ func (*ServantProxy).doInvoke$2
 //@   trusted
@@ -226,6 +234,8 @@ package tars
 //@   requires 0 - 2147483648 < s.queueLen && s.queueLen < 2147483647
 //@   let q0 = s.queueLen
 //@   let req0 = msg.Req
+//@   site AddInt32#0 assert [C09] $0 == addr(s.queueLen) && $1 == 1
+//@   sites AddInt32 = 1
 //@   let id0 = msg.Req.IRequestId
 //@   noframe
 //@   allocates
@@ -299,6 +309,8 @@ package tars
 //@   site dynamic#2 assert [C09] $0.hasdl && (!s.ghad ==> $0.dl == s.gto)
 //@   site dynamic#3 assert [C09] $0.hasdl && (!s.ghad ==> $0.dl == s.gto)
 //@   site dynamic#4 assert [C09] $0.hasdl && (!s.ghad ==> $0.dl == s.gto)
+//@   site Init#0 assert [C08] msg.Req.IRequestId != 0
+//@   sites genRequestID = 1
 //@   site GetClientHash#0 ghostafter s.ghok = $ret0
 //@   site GetClientHash#0 ghostafter s.ghty = $ret1
 //@   site GetClientHash#0 ghostafter s.ghcode = $ret2
@@ -356,8 +368,12 @@ package tars
 //@ pred healthOK(a) = a != nil && a.tarsClient != nil && a.lastFailCount <= a.failCount && a.lastSuccessTime >= 0 && a.lastBlockTime >= 0 && a.lastCheckTime >= 0
 //@ pred epListHealthy(e) = forall k: iface {select(e.epList.val, k)} :: select(e.epList.dom, k) ==> (istype(select(e.epList.val, k), "*AdapterProxy") && healthOK(cast(select(e.epList.val, k), "*AdapterProxy")))
 //
+// (the keep-alive ping draws its own request id like every other request: call-site count checked, C08)
 //@ func (*AdapterProxy).doKeepAlive
 //@   trusted
+//@   argsonly
+//@   sites genRequestID = 1
+//@   site genRequestID#0 assert [C08] $0 == c.servantProxy
 //@   requires c != nil
 //@   modifies c.lastKeepAliveTime
 //@   allocates
